@@ -55,6 +55,9 @@ SHAPES = [
     {"k": "generic", "cmd": "message", "args": ['"tab\there"', '" lead"', '"trail "']},
     {"k": "generic", "cmd": "list", "args": ["APPEND", "L", "a;b", "[[x  y]]", "c\\ \\ d"]},
     {"k": "option", "help": '"two  blanks  help"', "default": "ON"},
+    {"k": "set", "values": ["ON", "CACHE", "BOOL", '"help text"']},             # a cache entry is a set() like any other
+    {"k": "set", "values": ["v", "CACHE", "STRING", '"doc"', "FORCE"]},
+    {"k": "set", "values": ["${x}", "PARENT_SCOPE"]},
     {"k": "function", "params": ["a", "b", "c", "d", "e"]},
     {"k": "function", "params": []},
     {"k": "macro", "params": []},
